@@ -35,6 +35,7 @@ func c10GenMessage(t *rapid.T, typ MessageType) (Message, bool) {
 	if c, isCustom := m.(*Custom); isCustom && typ >= CustomTypeStart {
 		c.Type = typ
 	}
+	c10ExtendMessage(t, m)
 
 	return m, true
 }
@@ -86,6 +87,7 @@ func c10ValueProp(t *rapid.T, st *vstats.Collector) {
 		t.Fatalf("registered message type %d has no RandTestMessage", typ)
 	}
 	labels := []string{"type=" + fmt.Sprintf("%T", m)}
+	labels = append(labels, c10AddrLabels(m)...)
 
 	var injected []c10ref.Rec
 	if rapid.IntRange(0, 2).Draw(t, "inject") == 0 {
